@@ -59,9 +59,16 @@ func (c Const) Validate(v bytes.Bytes) {
 		return
 	}
 
-	if v.String() != c.nodeValue.String() {
-		panic(errors.Format(errors.ErrInvalidConst, c.nodeValue.String()))
+	if v.InQuotes() && c.nodeValue.InQuotes() {
+		// Strings are equal when their values are, whatever escape sequences
+		// were used to spell them.
+		if v.Unquote().String() == c.nodeValue.Unquote().String() {
+			return
+		}
+	} else if v.String() == c.nodeValue.String() {
+		return
 	}
+	panic(errors.Format(errors.ErrInvalidConst, c.nodeValue.String()))
 }
 
 func (c Const) ASTNode() jschema.RuleASTNode {
